@@ -403,6 +403,7 @@ def main(argv=None) -> int:
             "lean_status": st.summary(),
             "translator": st.translator_msg,
             "leanchecker": st.leanchecker,
+            "generated_tables_present": st.tables_present,
             "evaluations": run.evaluations,
             "distinct_nontrivial": len(run.distinct),
             "rule": getattr(mod, "RULE", ""),
